@@ -228,6 +228,34 @@ impl D {
         }
     }
 
+    /// Merge every group that stands in the body of a group into that group, the way gram's
+    /// parser reads `x = a; y = b; body`: `Let(outer, Let(inner, body))` becomes
+    /// `Let(outer shifted up by |inner| ++ inner, body)` (in the merged group the outer definitions
+    /// sit |inner| binders deeper). Used only to recognise one recorded finding of C16.
+    pub fn flatten_body_groups(&self) -> D {
+        let b = |x: &D| Box::new(x.flatten_body_groups());
+        match self {
+            D::Lam(im, a, x) => D::Lam(*im, b(a), b(x)),
+            D::Pi(im, a, x) => D::Pi(*im, b(a), b(x)),
+            D::App(a, x) => D::App(b(a), b(x)),
+            D::Bin(op, a, x) => D::Bin(*op, b(a), b(x)),
+            D::Neg(a) => D::Neg(b(a)),
+            D::If(a, x, y) => D::If(b(a), b(x), b(y)),
+            D::Let(defs, body) => {
+                let mut all: Vec<(D, D)> = defs.iter().map(|(a, d)| (a.flatten_body_groups(), d.flatten_body_groups())).collect();
+                let mut body = body.flatten_body_groups();
+                while let D::Let(inner, inner_body) = body {
+                    let n = inner.len();
+                    all = all.iter().map(|(a, d)| (a.shift_free(0, n), d.shift_free(0, n))).collect();
+                    all.extend(inner);
+                    body = *inner_body;
+                }
+                D::Let(all, Box::new(body))
+            }
+            other => other.clone(),
+        }
+    }
+
     pub fn show(&self) -> String {
         match self {
             D::Type => "type".into(),
